@@ -372,9 +372,11 @@ func ruleTIMEVAL(p *Program) *RuleResult {
 	}
 	units := []string{"year", "month", "week", "day", "hour", "minute", "second", "millisecond", "months", "days"}
 	amounts := []*big.Rat{big.NewRat(0, 1), big.NewRat(1, 1), big.NewRat(11, 1), big.NewRat(12, 1), big.NewRat(13, 1), big.NewRat(23, 1), big.NewRat(24, 1), big.NewRat(25, 1),
-		big.NewRat(59, 1), big.NewRat(60, 1), big.NewRat(61, 1), big.NewRat(365, 1), big.NewRat(366, 1), big.NewRat(1000, 1), big.NewRat(3, 2), big.NewRat(-1, 1), big.NewRat(-13, 1)}
+		big.NewRat(59, 1), big.NewRat(60, 1), big.NewRat(61, 1), big.NewRat(365, 1), big.NewRat(366, 1), big.NewRat(1000, 1), big.NewRat(3, 2), big.NewRat(-1, 1), big.NewRat(-13, 1),
+		big.NewRat(29, 1), big.NewRat(30, 1), big.NewRat(31, 1), big.NewRat(359, 1), big.NewRat(360, 1), big.NewRat(364, 1), big.NewRat(729, 1), big.NewRat(730, 1), big.NewRat(-365, 1)}
 	if !thoroughTier {
-		amounts = []*big.Rat{big.NewRat(0, 1), big.NewRat(1, 1), big.NewRat(12, 1), big.NewRat(13, 1), big.NewRat(24, 1), big.NewRat(25, 1), big.NewRat(61, 1), big.NewRat(365, 1), big.NewRat(366, 1), big.NewRat(3, 2), big.NewRat(-1, 1)}
+		amounts = []*big.Rat{big.NewRat(0, 1), big.NewRat(1, 1), big.NewRat(12, 1), big.NewRat(13, 1), big.NewRat(24, 1), big.NewRat(25, 1), big.NewRat(61, 1), big.NewRat(365, 1), big.NewRat(366, 1), big.NewRat(3, 2), big.NewRat(-1, 1),
+			big.NewRat(29, 1), big.NewRat(30, 1), big.NewRat(364, 1), big.NewRat(729, 1)}
 	}
 	type cellKey struct{ fn, prec, unit string }
 	badBy := map[cellKey]int{}
